@@ -1,5 +1,5 @@
 (* C13 — AllowMissingPathOnRemove (v5 model). *)
-From JP Require Import Bytes Json Text Strings Den Pointer Rfc6902 ImplV5 Domain ImplFacts RefFacts ApplyFacts ApplySim AllowEnsureFacts.
+From JP Require Import Bytes Json Text Strings Den Pointer Rfc6902 ImplV5 Domain ImplFacts RefFacts ApplyFacts Depth ApplySim AllowEnsureFacts.
 
 (* all other operations behave exactly as without the option: the step function of every
    operation that is not a remove is the same function with the option on or off
@@ -55,10 +55,15 @@ Print Assumptions C13_skip_on_null_root.
    domain of C01): the outcome equals that of applying, with the option off, the patch with exactly
    the skipped removes deleted (strip follows the reference run and deletes the removes whose
    target does not resolve at that moment): both succeed with the same document value, or both fail
-   at the same operation for the same reference cause *)
+   at the same operation for the same reference cause.
+   copies_fit (see C01: no copy the reference run reaches has a source nested deeper than deepCopy
+   accepts) is stated on the reference run of the STRIPPED patch: a skipped remove leaves the
+   document value unchanged, so both runs of the library meet every copy at the document value at
+   which that reference run meets it *)
 Theorem C13_equals_stripped_patch : forall o p i st,
   allow_opts o -> sgood st -> Forall op_dom p ->
   let p' := strip (dia o) (sval st) p in
+  copies_fit (dia o) (sval st) (map den_op p') = true ->
   match apply_from (set_allow o false) i st p' with
   | AOk st2 => exists st1, apply_from o i st p = AOk st1 /\ sval st1 = sval st2 /\ sgood st1 /\ sgood st2
   | AErr k e2 => exists k1 e1 cz, apply_from o i st p = AErr k1 e1 /\ cause_rel cz e1 /\ cause_rel cz e2 /\
@@ -71,6 +76,7 @@ Print Assumptions C13_equals_stripped_patch.
 (* the same against the reference: the run with the option on IS the reference run of the stripped patch *)
 Theorem C13_reference_of_stripped_patch : forall o, allow_opts o -> forall p i i' st,
   sgood st -> Forall op_dom p ->
+  copies_fit (dia o) (sval st) (map den_op (strip (dia o) (sval st) p)) = true ->
   match rfc_apply_from (dia o) i' (sval st) (map den_op (strip (dia o) (sval st) p)) with
   | Done doc => exists st', apply_from o i st p = AOk st' /\ sval st' = doc /\ sgood st'
   | Failed k cz => exists k1 e, apply_from o i st p = AErr k1 e /\ cause_rel cz e /\
